@@ -368,53 +368,54 @@ Definition set_live (s : sess) (b : bool) : sess :=
          (s_ovd s) (s_a4 s) (s_a6 s) (s_ad s) (s_p4 s) (s_p6 s) (s_told s) (s_ipcp s) (s_b4 s) (s_b6 s) (s_bd s).
 
 (* PPPoE: onAuthResult(true, attrs) -> extractIPFromAttributes, buildAllocContext, startNCP *)
+Definition okopt {A} (ok : bool) (a : option A) : option A := if ok then a else None.
+(* R1 (Repaired): no constant fall-back, and 0.0.0.0 is no address; without an address IPCP is not started *)
+Definition pa_addr (v : variant) (a4 : option item) : option item :=
+  match a4 with
+  | None => if d1 v then Some (addr_item fallback_addr) else None
+  | Some i => if negb (d1 v) && (fst i =? 0) then None else a4
+  end.
+Definition pa_sess (s : sess) (vrf : N) (ov4 ov6 : option N) (a4 a6 ad : option item) (p4 p6 : option N) : sess :=
+  mkSess (s_id s) true (s_prof4 s) (s_prof6 s) (s_mac s) true true vrf ov4 ov6 None
+         (oaddr a4) (oaddr a6) ad p4 p6 (oaddr a4) false None None None.
+Definition pa_pd (v : variant) (spd : option item) (vrf sid : N) (r2 : reg) : list (reg * option item) :=
+  match spd with
+  | Some x => map (fun c : reg * bool => (fst c, okopt (snd c) (Some x))) (reserve_cont v FD x vrf sid r2)
+  | None => [(r2, None)]
+  end.
 Definition step_pa (v : variant) (st : state) (s : sess) (vrf : N) (s4 s6 : option N) (spd : option item)
            (o4 o6 od : option N) : list (state * out) :=
   let ov4 := match s_prof4 s with Some _ => o4 | None => None end in
   let ov6 := match s_prof6 s with Some _ => o6 | None => None end in
   bindl (acquire v F4 (s_prof4 s) ov4 vrf (s_id s) (oitem s4) (st_reg st)) (fun c4 =>
     match c4 with (r1, a4, p4, ok4) =>
-    let a4 := if ok4 then a4 else None in      (* reservation conflict: s.IPv4Address = nil *)
+    (* reservation conflict: s.IPv4Address = nil *)
     bindl (acquire v F6 (s_prof6 s) ov6 vrf (s_id s) (oitem s6) r1) (fun c6 =>
       match c6 with (r2, a6, p6, ok6) =>
-      let a6 := if ok6 then a6 else None in
-      let pds := match spd with
-                 | Some x => map (fun c : reg * bool => let (r3, ok) := c in (r3, if ok then Some x else None))
-                                 (reserve_cont v FD x vrf (s_id s) r2)
-                 | None => [(r2, None)]
-                 end in
-      map (fun cd : reg * option item => let (r3, ad) := cd in
-        (* R1 (Repaired): no constant fall-back; without an address IPCP is not started *)
-        let a4' := match a4 with
-                   | None => if d1 v then Some (addr_item fallback_addr) else None
-                   | Some _ => a4
-                   end in
-        let s' := mkSess (s_id s) true (s_prof4 s) (s_prof6 s) (s_mac s) true true vrf ov4 ov6 None
-                         (oaddr a4') (oaddr a6) ad p4 p6 (oaddr a4') false None None None in
-        (mkState r3 (put_sess s' (st_sess st)) (st_prov st),
-         OPa (oaddr a4') (oaddr a6) ad p4 p6 (oaddr a4'))) pds
+      map (fun cd : reg * option item =>
+        let a4' := pa_addr v (okopt ok4 a4) in
+        (mkState (fst cd) (put_sess (pa_sess s vrf ov4 ov6 a4' (okopt ok6 a6) (snd cd) p4 p6) (st_sess st)) (st_prov st),
+         OPa (oaddr a4') (oaddr (okopt ok6 a6)) (snd cd) p4 p6 (oaddr a4'))) (pa_pd v spd vrf (s_id s) r2)
       end)
     end).
 
 (* IPCP Configure-Request from the peer (after it acknowledged ours): ipcp.ProcessConfReq + onIPCPUp *)
+Definition pi_upd (s : sess) (a4 : option N) : sess :=
+  mkSess (s_id s) true (s_prof4 s) (s_prof6 s) (s_mac s) (s_live s) true (s_vrf s) (s_ov4 s) (s_ov6 s)
+         (s_ovd s) a4 (s_a6 s) (s_ad s) (s_p4 s) (s_p6 s) (s_told s) true None None None.
+Definition pi_res (st : state) (s : sess) (a4 : option N) (r : pires) : list (state * out) :=
+  [(mkState (st_reg st) (put_sess (pi_upd s a4) (st_sess st)) (st_prov st), OPi r a4)].
 Definition step_pi (st : state) (s : sess) (a : option N) : list (state * out) :=
-  let upd (a4 : option N) :=
-    mkSess (s_id s) true (s_prof4 s) (s_prof6 s) (s_mac s) (s_live s) true (s_vrf s) (s_ov4 s) (s_ov6 s)
-           (s_ovd s) a4 (s_a6 s) (s_ad s) (s_p4 s) (s_p6 s) (s_told s) true None None None in
   match s_told s with
-  | None => [(mkState (st_reg st) (put_sess (upd (s_a4 s)) (st_sess st)) (st_prov st), OPi PiNoReply (s_a4 s))]
+  | None => pi_res st s (s_a4 s) PiNoReply
   | Some t =>
       let usable := negb (t =? 0) in
       match a with
       | Some x =>
-          if usable && negb (x =? t) then
-            [(mkState (st_reg st) (put_sess (upd (s_a4 s)) (st_sess st)) (st_prov st), OPi (PiNak t) (s_a4 s))]
-          else if x =? 0 then
-            [(mkState (st_reg st) (put_sess (upd (s_a4 s)) (st_sess st)) (st_prov st), OPi PiRej (s_a4 s))]
-          else
-            [(mkState (st_reg st) (put_sess (upd (Some x)) (st_sess st)) (st_prov st), OPi (PiAck (Some x)) (Some x))]
-      | None =>
-          [(mkState (st_reg st) (put_sess (upd None) (st_sess st)) (st_prov st), OPi (PiAck None) None)]
+          if usable && negb (x =? t) then pi_res st s (s_a4 s) (PiNak t)
+          else if x =? 0 then pi_res st s (s_a4 s) PiRej
+          else pi_res st s (Some x) (PiAck (Some x))
+      | None => pi_res st s None (PiAck None)
       end
   end.
 
@@ -444,13 +445,13 @@ Definition step_pt (v : variant) (st : state) (s : sess) : list (state * out) :=
       map (fun r3 => (mkState r3 (put_sess (set_live s false) (st_sess st)) (st_prov st), OPt)) rds)).
 
 (* IPoE: (NewContext on first use) ResolveV4 + local provider DISCOVER/REQUEST; REQUEST binds (handleAck) *)
-Definition step_id (v : variant) (st : state) (s : sess) (isreq : bool) (vrf : N) (s4 o4 : option N)
-  : list (state * out) :=
-  let s0 := if s_started s then s else
-              mkSess (s_id s) false (s_prof4 s) (s_prof6 s) (s_mac s) true true vrf
-                     (match s_prof4 s with Some _ => o4 | None => None end) None None
-                     (match s_prof4 s with Some _ => s4 | None => None end) None None None None None false
-                     None None None in
+Definition id_ctx (s : sess) (vrf : N) (s4 o4 : option N) : sess :=
+  if s_started s then s else
+    mkSess (s_id s) false (s_prof4 s) (s_prof6 s) (s_mac s) true true vrf
+           (match s_prof4 s with Some _ => o4 | None => None end) None None
+           (match s_prof4 s with Some _ => s4 | None => None end) None None None None None false
+           None None None.
+Definition step_id_core (v : variant) (st : state) (s0 : sess) (isreq : bool) : list (state * out) :=
   match s_prof4 s0 with
   | None => [(mkState (st_reg st) (put_sess s0 (st_sess st)) (st_prov st), OId isreq IdNil (s_a4 s0))]
   | Some _ =>
@@ -473,20 +474,22 @@ Definition step_id (v : variant) (st : state) (s : sess) (isreq : bool) (vrf : N
       end
       end)
   end.
+Definition step_id (v : variant) (st : state) (s : sess) (isreq : bool) (vrf : N) (s4 o4 : option N)
+  : list (state * out) := step_id_core v st (id_ctx s vrf s4 o4) isreq.
 
 (* IPoE: (NewContext on first use) ResolveV6; at function level the advertised binding is the bound one *)
-Definition step_is (v : variant) (st : state) (s : sess) (vrf : N) (s6 : option N) (spd : option item)
-           (o6 od : option N) : list (state * out) :=
-  let s0 := if s_started s then s else
-              mkSess (s_id s) false (s_prof4 s) (s_prof6 s) (s_mac s) true true vrf None
-                     (match s_prof6 s with Some _ => o6 | None => None end)
-                     (match s_prof6 s with Some _ => od | None => None end)
-                     None (match s_prof6 s with Some _ => s6 | None => None end)
-                     (match s_prof6 s with Some _ => spd | None => None end) None None None false
-                     None None None in
-  let mk (a6 : option N) (ad : option item) (b6 : option N) (bd : option item) :=
-    mkSess (s_id s0) false (s_prof4 s0) (s_prof6 s0) (s_mac s0) true true (s_vrf s0) (s_ov4 s0) (s_ov6 s0)
-           (s_ovd s0) (s_a4 s0) a6 ad None None (s_told s0) false (s_b4 s0) b6 bd in
+Definition is_ctx (s : sess) (vrf : N) (s6 : option N) (spd : option item) (o6 od : option N) : sess :=
+  if s_started s then s else
+    mkSess (s_id s) false (s_prof4 s) (s_prof6 s) (s_mac s) true true vrf None
+           (match s_prof6 s with Some _ => o6 | None => None end)
+           (match s_prof6 s with Some _ => od | None => None end)
+           None (match s_prof6 s with Some _ => s6 | None => None end)
+           (match s_prof6 s with Some _ => spd | None => None end) None None None false
+           None None None.
+Definition is_mk (s0 : sess) (a6 : option N) (ad : option item) (b6 : option N) (bd : option item) : sess :=
+  mkSess (s_id s0) false (s_prof4 s0) (s_prof6 s0) (s_mac s0) true true (s_vrf s0) (s_ov4 s0) (s_ov6 s0)
+         (s_ovd s0) (s_a4 s0) a6 ad None None (s_told s0) false (s_b4 s0) b6 bd.
+Definition step_is_core (v : variant) (st : state) (s0 : sess) : list (state * out) :=
   match s_prof6 s0 with
   | None => [(mkState (st_reg st) (put_sess s0 (st_sess st)) (st_prov st), OIs None (s_a6 s0) (s_ad s0))]
   | Some _ =>
@@ -498,19 +501,21 @@ Definition step_is (v : variant) (st : state) (s : sess) (vrf : N) (s6 : option 
       bindl (acquire v FD (s_prof6 s0) (s_ovd s0) (s_vrf s0) (s_id s0) (s_ad s0) r1) (fun cd =>
         match cd with (r2, ad, _, okd) =>
         if negb okd then
-          [(mkState r2 (put_sess (mk (oaddr a6) (s_ad s0) (s_b6 s0) (s_bd s0)) (st_sess st)) (st_prov st),
+          [(mkState r2 (put_sess (is_mk s0 (oaddr a6) (s_ad s0) (s_b6 s0) (s_bd s0)) (st_sess st)) (st_prov st),
             OIs None (oaddr a6) (s_ad s0))]
         else
           match a6, ad with
           | None, None =>
-              [(mkState r2 (put_sess (mk None None (s_b6 s0) (s_bd s0)) (st_sess st)) (st_prov st), OIs None None None)]
+              [(mkState r2 (put_sess (is_mk s0 None None (s_b6 s0) (s_bd s0)) (st_sess st)) (st_prov st), OIs None None None)]
           | _, _ =>
-              [(mkState r2 (put_sess (mk (oaddr a6) ad (oaddr a6) ad) (st_sess st)) (st_prov st),
+              [(mkState r2 (put_sess (is_mk s0 (oaddr a6) ad (oaddr a6) ad) (st_sess st)) (st_prov st),
                 OIs (Some (oaddr a6, ad)) (oaddr a6) ad)]
           end
         end)
       end)
   end.
+Definition step_is (v : variant) (st : state) (s : sess) (vrf : N) (s6 : option N) (spd : option item)
+           (o6 od : option N) : list (state * out) := step_is_core v st (is_ctx s vrf s6 spd o6 od).
 
 (* IPoE release sequences: handleRelease / cleanupSessions (ir = true) and handleSubscriberTerminate *)
 Definition step_rel (v : variant) (st : state) (s : sess) (ir : bool) : list (state * out) :=
